@@ -322,6 +322,19 @@ impl Terms {
 						}
 					}
 				}
+				// (ite c k1 k2) * x with constant branches: keep the product piecewise linear
+				for (p, q) in [(a, b), (b, a)] {
+					if self.as_rat(q).is_some() {
+						continue;
+					}
+					if let Node::App(Op::Ite, args) = self.node(p).clone() {
+						if self.as_rat(args[1]).is_some() && self.as_rat(args[2]).is_some() {
+							let x = self.mul(args[1], q);
+							let y = self.mul(args[2], q);
+							return self.ite(args[0], x, y);
+						}
+					}
+				}
 			}
 		} else {
 			if let (Some(x), Some(y)) = (self.as_int(a), self.as_int(b)) {
@@ -369,6 +382,12 @@ impl Terms {
 	pub fn to_real(&mut self, a: T) -> T {
 		if let Some(x) = self.as_int(a) {
 			return self.real_i(x);
+		}
+		if let Node::App(Op::Ite, args) = self.node(a).clone() {
+			if let (Some(x), Some(y)) = (self.as_int(args[1]), self.as_int(args[2])) {
+				let (rx, ry) = (self.real_i(x), self.real_i(y));
+				return self.ite(args[0], rx, ry);
+			}
 		}
 		self.app(Op::ToReal, vec![a], Sort::Real)
 	}
@@ -540,6 +559,23 @@ impl Terms {
 			}
 			_ => self.ref_smt(t),
 		}
+	}
+	/// like app_smt, but products of two non-constants and quotients by a non-constant become
+	/// uninterpreted functions (a sound over-approximation: unsat here implies unsat exactly)
+	pub fn app_smt_abs(&self, t: T) -> String {
+		if let Node::App(op, args) = self.node(t) {
+			match op {
+				Op::Mul if self.sort(t) == Sort::Real && self.as_rat(args[0]).is_none() && self.as_rat(args[1]).is_none() => {
+					let (x, y) = if args[0] <= args[1] { (args[0], args[1]) } else { (args[1], args[0]) };
+					return format!("(abs_mul {} {})", self.ref_smt(x), self.ref_smt(y));
+				}
+				Op::Div if self.as_rat(args[1]).is_none() => {
+					return format!("(abs_div {} {})", self.ref_smt(args[0]), self.ref_smt(args[1]));
+				}
+				_ => {}
+			}
+		}
+		self.app_smt(t)
 	}
 	pub fn children(&self, t: T) -> &[T] {
 		match self.node(t) {
